@@ -91,7 +91,7 @@ Proof. intros. reflexivity. Qed.
 Theorem surplus_template_argument : forall s targs args r,
     (length targs < length args)%nat -> check_template_args s targs args r = [(r, DTooManyArgs)].
 Proof.
-  intros s targs args r H. unfold check_template_args.
+  intros s targs args r H. unfold check_template_args, argv, dg in *.
   destruct (Nat.ltb_spec (length targs) (length args)); [reflexivity|lia].
 Qed.
 
@@ -127,7 +127,7 @@ Proof.
     + injection Hj as ->. simpl. rewrite Nat.add_0_r in Ha. rewrite Ha, Hc.
       destruct (cta_loop s targs (S k) (snd (remove_name (lf_name a) unsolved)) rest). simpl. now left.
     + assert (Ha' : nth_error targs (S k + j) = Some a) by (now rewrite <- plus_n_Sm in Ha).
-      destruct (cta_loop_cons s targs k unsolved x rest) as [d [u' E]]. rewrite E.
+      destruct (cta_loop_cons s targs k unsolved x rest) as [d [u' E]]. unfold dg, argv in *. rewrite E.
       apply in_or_app. right. apply (IH (S k) u' j vty vr a Hj Ha' Hc).
 Qed.
 
@@ -137,7 +137,7 @@ Theorem incompatible_template_argument : forall s targs args r j vty vr a,
     can_cast s vty (lf_ty a) = false ->
     In (vr, DArgType) (check_template_args s targs args r).
 Proof.
-  intros s targs args r j vty vr a Hlen Hj Ha Hc. unfold check_template_args.
+  intros s targs args r j vty vr a Hlen Hj Ha Hc. unfold check_template_args, argv, dg in *.
   destruct (Nat.ltb_spec (length targs) (length args)); [lia|].
   pose proof (cta_loop_arg_type s targs args 0 (map lf_name targs) j vty vr a Hj Ha Hc) as G.
   destruct (cta_loop s targs 0 (map lf_name targs) args). simpl in G. apply in_or_app. now left.
